@@ -72,6 +72,11 @@ def scenario_files(sc, base: str) -> dict:
         inits[tuple(path[:at])].append(line)
     for p, lines in inits.items():
         files["/".join([base, *p, "__init__.py"])] = "\n".join(lines) + ("\n" if lines else "")
+    if sc["kind"] != "function":
+        # another module of the scenario package uses the class / enum as a type, whatever its publicity
+        s = sfx(sc["id"])
+        files[f"{base}/usermod{s}.py"] = (f"from .{'.'.join([*path, n['stem']])} import {n['decl']}\n\n\n"
+                                          f"def holds{s}(x: {n['decl']}) -> int:\n    ...\n")
     return files
 
 
